@@ -33,7 +33,7 @@ Reset == /\ Consume /\ Ev.op = "Reset"
          /\ dir' = 0 /\ hb' = FALSE /\ dirStale' = FALSE /\ hbStale' = FALSE /\ gen' = 0 /\ creator' = <<>>
          /\ holds' = [p \in Procs |-> FALSE] /\ hbOn' = [p \in Procs |-> FALSE] /\ alive' = [p \in Procs |-> TRUE]
          /\ acquiring' = [p \in Procs |-> 0] /\ ownGen' = [p \in Procs |-> 0]
-         /\ decidedGen' = [p \in Procs |-> 0] /\ sawStale' = [p \in Procs |-> FALSE]
+         /\ decidedGen' = [p \in Procs |-> 0] /\ sawStale' = [p \in Procs |-> FALSE] /\ rechecked' = [p \in Procs |-> FALSE]
          /\ relStartGen' = [p \in Procs |-> 0] /\ lifeSince' = [p \in Procs |-> FALSE] /\ stalled' = [p \in Procs |-> FALSE]
          /\ viol' = {}
 
@@ -46,7 +46,7 @@ MkdirOk == /\ Consume /\ Ev.op = "MkdirOk" /\ Keep
               ELSE \* the backend let a second contender "create" the directory that exists: no exclusive creation
                    /\ Flag({"acquire-without-exclusive-create"})
                    /\ acquiring' = [acquiring EXCEPT ![Ev.p] = dir] /\ ownGen' = [ownGen EXCEPT ![Ev.p] = dir]
-                   /\ UNCHANGED <<dir, hb, dirStale, hbStale, gen, creator, holds, hbOn, alive, decidedGen, sawStale, relStartGen, lifeSince, stalled>>
+                   /\ UNCHANGED <<dir, hb, dirStale, hbStale, gen, creator, holds, hbOn, alive, decidedGen, sawStale, rechecked, relStartGen, lifeSince, stalled>>
 
 MkdirFail == Consume /\ Ev.op = "MkdirFail" /\ UNCHANGED mvars /\ Keep
 TouchDir == Consume /\ Ev.op = "TouchDir" /\ MTouchDir /\ Keep
@@ -55,7 +55,7 @@ Beat == /\ Consume /\ Ev.op = "Beat" /\ Keep
         /\ IF Ev.kind = "open" THEN MBeat(Ev.p, Ev.dirNow)   \* dirNow: the backend (re-)created the directory, as observed
            ELSE /\ hbStale' = (IF hb THEN FALSE ELSE hbStale)
                 /\ lifeSince' = (IF hb THEN [q \in Procs |-> TRUE] ELSE lifeSince)
-                /\ UNCHANGED <<dir, hb, dirStale, gen, creator, holds, hbOn, alive, acquiring, ownGen, decidedGen, sawStale, relStartGen, stalled, viol>>
+                /\ UNCHANGED <<dir, hb, dirStale, gen, creator, holds, hbOn, alive, acquiring, ownGen, decidedGen, sawStale, rechecked, relStartGen, stalled, viol>>
 
 RemoveHbOk == Consume /\ Ev.op = "RemoveHbOk" /\ MRemoveHb /\ Keep
 
@@ -63,10 +63,10 @@ RemoveDirOk == /\ Consume /\ Ev.op = "RemoveDirOk" /\ Keep
                /\ IF dir # 0
                   THEN /\ Flag(RemovalVerdict(Ev.p, Ev.takeover))
                        /\ dir' = 0 /\ hb' = FALSE /\ dirStale' = FALSE
-                       /\ UNCHANGED <<hbStale, gen, creator, holds, hbOn, alive, acquiring, ownGen, decidedGen, sawStale, relStartGen, lifeSince, stalled>>
+                       /\ UNCHANGED <<hbStale, gen, creator, holds, hbOn, alive, acquiring, ownGen, decidedGen, sawStale, rechecked, relStartGen, lifeSince, stalled>>
                   ELSE UNCHANGED mvars
 
-Decide == Consume /\ Ev.op = "Decide" /\ MDecide(Ev.p, Ev.aged) /\ Keep
+Decide == Consume /\ Ev.op = "Decide" /\ MDecide(Ev.p, Ev.aged, Ev.kind = "stale2") /\ Keep
 
 AcquireOk == /\ Consume /\ Ev.op = "AcquireOk" /\ Keep
              /\ LET others == {q \in Procs \ {Ev.p} : holds[q] /\ alive[q] /\ hbOn[q]}
@@ -76,18 +76,18 @@ AcquireOk == /\ Consume /\ Ev.op = "AcquireOk" /\ Keep
                 IN Flag(dbl \cup noCreate)
              /\ holds' = [holds EXCEPT ![Ev.p] = TRUE] /\ hbOn' = [hbOn EXCEPT ![Ev.p] = TRUE]
              /\ acquiring' = [acquiring EXCEPT ![Ev.p] = 0]
-             /\ UNCHANGED <<dir, hb, dirStale, hbStale, gen, creator, alive, ownGen, decidedGen, sawStale, relStartGen, lifeSince, stalled>>
+             /\ UNCHANGED <<dir, hb, dirStale, hbStale, gen, creator, alive, ownGen, decidedGen, sawStale, rechecked, relStartGen, lifeSince, stalled>>
 
 AcquireFail == /\ Consume /\ Ev.op = "AcquireFail" /\ Keep
                /\ Flag(IF Ev.kind = "stalelock" /\ ~sawStale[Ev.p] THEN {"fresh-lock-reported-stale"} ELSE {})
                /\ acquiring' = [acquiring EXCEPT ![Ev.p] = 0]
-               /\ UNCHANGED <<dir, hb, dirStale, hbStale, gen, creator, holds, hbOn, alive, ownGen, decidedGen, sawStale, relStartGen, lifeSince, stalled>>
+               /\ UNCHANGED <<dir, hb, dirStale, hbStale, gen, creator, holds, hbOn, alive, ownGen, decidedGen, sawStale, rechecked, relStartGen, lifeSince, stalled>>
 
 ReleaseBegin == Consume /\ Ev.op = "ReleaseBegin" /\ MReleaseBegin(Ev.p) /\ Keep
 Quiet == Consume /\ Ev.op \in {"ReleaseEnd", "TakeoverBegin", "TakeoverEnd"} /\ UNCHANGED mvars /\ Keep
 \* the in-memory backend broke down (afero MemMapFs panics on an orphaned child): the rest of the trace is void
 BackendPanic == /\ Consume /\ Ev.op = "BackendPanic" /\ Keep /\ Flag({"backend-panic"})
-                /\ UNCHANGED <<dir, hb, dirStale, hbStale, gen, creator, holds, hbOn, alive, acquiring, ownGen, decidedGen, sawStale, relStartGen, lifeSince, stalled>>
+                /\ UNCHANGED <<dir, hb, dirStale, hbStale, gen, creator, holds, hbOn, alive, acquiring, ownGen, decidedGen, sawStale, rechecked, relStartGen, lifeSince, stalled>>
 Tick == Consume /\ Ev.op = "Tick" /\ Keep /\ (IF dir # 0 THEN MTick ELSE UNCHANGED mvars)
 Die == Consume /\ Ev.op = "Die" /\ MDie(Ev.p) /\ Keep
 
